@@ -73,6 +73,26 @@ def mergingFunctions : List (String × List String) :=
     ("isclose", ["a", "b"]),
     ("allclose", ["a", "b"]) ]
 
+/-- check kinds that refuse unit-carrying operands of different dimension: the three modelled
+    validators (`validateConsistency`, `validateV2`) and `_sanitize_range` (`.to_value`, not modelled:
+    direct oracle) -/
+def mergeKinds : List String := ["validate", "validate_v2", "validate_side", "sanitize_range"]
+
+/-- comparison rows may also rest on `_array_comp_helper` (it adopts the unit for a unit-less side —
+    the documented dimensionless-comparison exception — and refuses two different dimensions) -/
+def comparisonRows : List (String × List String) := [("isclose", ["a", "b"]), ("allclose", ["a", "b"])]
+
+def kindsFor (row : String × List String) : List String :=
+  if comparisonRows.contains row then "comp_helper" :: mergeKinds else mergeKinds
+
+/-- the names under which `__array_ufunc__` holds its input operands: nothing may be written
+    through them -/
+def dispatcherInputNames : List String := ["inputs", "i0", "i1", "inp0", "inp1", "inp", "i"]
+
+/-- the only objects the dispatcher may write through: the `out=` arrays and views of them, and its
+    own keyword dictionary -/
+def dispatcherWritable : List String := ["out", "out_func", "_out", "o", "kwargs"]
+
 /-- rows of `mergingFunctions` for which unyt's handler performs no covering check on the
     unchanged tree; each is a listed finding of C01 (`arrayfunc|<function>|<argument>`) and has a
     counterexample theorem in `UnytProofs/C01.lean` -/
